@@ -8,7 +8,7 @@ from __future__ import annotations
 import json
 import random
 
-from ..docsuite import FLOW_FORMATS, MULTI, build_jobs, run_suite, validate_with_findings
+from ..docsuite import FLOW_FORMATS, MULTI, build_jobs, heading_jobs, run_suite, validate_with_findings
 
 FINDING_DEV = {
     "KF-C03-01": "Rtf!EmptyPageDropped",
@@ -32,7 +32,10 @@ def _events(j, o):
 def run(ctx):
     ev = ctx.ev
     rng = random.Random(ctx.seed)
-    jobs, ndocs = build_jobs(ctx, rng, two_block_sample=700)
+    jobs, ndocs = build_jobs(ctx, rng, two_block_sample=500)
+    hjobs, nh = heading_jobs(ctx, rng)
+    jobs += hjobs
+    ndocs += nh
     ctx.log(f"{ndocs} documents, {len(jobs)} (document, format) extractions")
     traces = run_suite(ctx, jobs, _events, "units")
     for t in traces:
